@@ -53,7 +53,7 @@ def Expr.DepthsOk (q : Qty) (w : Nat) : Expr → Prop
 
 /-- Every leaf is a valid MOC whose source advertises consistent hints. -/
 def Expr.LeavesOk (q : Qty) (w : Nat) : Expr → Prop
-  | .leaf s => Valid q w s.depth s.items ∧ s.HintOk
+  | .leaf s => Valid q w s.depth s.items ∧ s.HintOkAll
   | .and a b | .or a b | .xor a b | .minus a b => a.LeavesOk q w ∧ b.LeavesOk q w
   | .not a => a.LeavesOk q w
   | .degrade _ a => a.LeavesOk q w
